@@ -26,8 +26,15 @@ def cluster_desc(kinds, layout, d, level):
     return dict(t='cluster', kinds=list(kinds), layout=layout, d=d, level=level)
 
 
-def window_desc(key, chain, start_index, k):
-    return dict(t='window', key=key, chain=chain, i=start_index, k=k)
+def window_desc(key, chain, start_index, k, strip=None):
+    d = dict(t='window', key=key, chain=chain, i=start_index, k=k)
+    if strip:
+        d['strip'] = strip      # 'tips': ionizable side chains cut down to the defining atom of their group
+    return d
+
+
+TIPS_KEEP = {'ASP': ('CB', 'CG'), 'GLU': ('CB', 'CG', 'CD'), 'HIS': ('CB', 'CG'), 'ARG': ('CB', 'CG', 'CD', 'CZ'), 'TYR': ('CB', 'OH'),
+             'LYS': ('CB', 'NZ'), 'CYS': ('SG',)}
 
 
 def cutout_desc(key, chain, index, radius=10.0):
@@ -64,6 +71,8 @@ def build(desc, seed=0):
         s = gen.S([a.clone() for _, v in res[desc['i']:desc['i'] + desc['k']] for a in v])
         for a in s.atoms:
             a.alt = ' '
+        if desc.get('strip') == 'tips':
+            s = gen.S([a for a in s.atoms if a.resname not in TIPS_KEEP or a.name in gen.BACKBONE + ('OXT',) + TIPS_KEEP[a.resname]])
         return s.translate(off)
     if t == 'cutout':
         return cutout(desc).translate(off)
